@@ -25,4 +25,4 @@ PY
 $TOOLS/llvm-profdata merge -sparse $OUT/raw/*.profraw -o $OUT/all.profdata
 $TOOLS/llvm-cov report $BIN -instr-profile=$OUT/all.profdata --ignore-filename-regex='(\.cargo|rustc|/verif/harness|/rustlib/)' > $OUT/report.txt
 $TOOLS/llvm-cov show $BIN -instr-profile=$OUT/all.profdata --ignore-filename-regex='(\.cargo|rustc|/verif/harness|/rustlib/)' --show-line-counts-or-regions > $OUT/show.txt
-grep -E "^(/repo|repo_link|\.\./)|TOTAL|src/" $OUT/report.txt | awk '{print $1, $(NF-3), $(NF-2), $(NF-1)}' | column -t | head -100
+grep -E "^(/repo|repo_link|\.\./)|TOTAL|src/" $OUT/report.txt | awk '{print $1, $(NF-3), $(NF-2), $(NF-1)}' | head -100
